@@ -10,24 +10,44 @@ H0 = {"RK4": 0.2, "RK23": 0.2, "DOPRI5": 0.3, "DOP853": 0.6, "RADAU": 0.2}
 THETAS = [0.1, 0.25, 0.4, 0.5, 0.6, 0.75, 0.9]
 
 
+def time_scaled(prob, w):
+    """the same problem in the time unit 1/w:  z'(s) = w f(w s, z),  z(s) = y(w s).  The order statements are
+    invariant under this change of unit; absolute time tolerances in the code are not (seeded change C07-b:
+    an interpolant that snaps to the step ends within 1e-12)."""
+    def sub_t(e):
+        return ",".join(("*,%s,t" % gen.C(w)) if tok == "t" else tok for tok in e.split(","))
+    p2 = dict(prob)
+    p2["f"] = [gen.mul(gen.C(w), sub_t(e)) for e in prob["f"]]
+    if prob.get("jac"):
+        p2["jac"] = [[gen.mul(gen.C(w), sub_t(e)) for e in row] for row in prob["jac"]]
+    ex0 = prob["exact"]
+    p2["exact"] = lambda s: ex0(w * s)
+    p2["name"] = prob["name"]
+    return p2
+
+
 def builder(seed, n, defaults, tag):
     rng = random.Random(seed)
     cases, metas = [], {}
     g = 0
     fams = exact.TIMEDEP + [exact.logistic, exact.sho]
     for method in ORDER:
-        for fam in fams:
+        for fi, fam in enumerate(fams + fams[:3]):
+            # the last three groups of each method repeat a family in a time unit of 2^-40 (~1e-12)
+            w = 2.0 ** 40 if fi >= len(fams) else 1.0
             # Radau: only linear constant-coefficient problems with an analytic Jacobian, for which the simplified
             # Newton iteration is exact after one pass (otherwise the Newton residual at the loose tolerance dominates)
             if method == "RADAU" and fam not in (exact.poly_forced, exact.sho):
                 continue
             prob = fam(rng)
-            xs = 0.3
+            xs = 0.3 / w
+            if w != 1.0:
+                prob = time_scaled(prob, w)
             for sgn in (1.0, -1.0):
                 if sgn < 0 and prob["name"] in ("lingrow",):
                     continue
                 for k in range(4):
-                    h = H0[method] / (2 ** k)
+                    h = H0[method] / (2 ** k) / w
                     p2 = dict(prob)
                     p2["y0"] = prob["exact"](xs)
                     xend = xs + sgn * h
@@ -36,7 +56,7 @@ def builder(seed, n, defaults, tag):
                               first_step=h, dense=True, query=q, use_jac=True)
                     cid = "%s%d_%d" % (tag, g, k)
                     meta = {"family": prob["name"], "n": len(p2["y0"]), "backward": sgn < 0, "tolmode": "loose",
-                            "method": method, "group": g, "h": h, "exact": prob["exact"]}
+                            "method": method, "group": g, "h": h * w, "time_unit": 1.0 / w, "exact": prob["exact"]}
                     cases.append(gen.solve_case(cid, **kw))
                     metas[cid] = (meta, kw)
                 g += 1
